@@ -14,6 +14,8 @@ C15 model, part 1: range specs as the response side sees them.
 import SquidModel.Base.Bytes
 import SquidModel.Gen.RangePackConsts
 
+deriving instance DecidableEq for Except
+
 namespace SquidModel.RangePack
 
 /-- `HttpHdrRangeSpec`; `-1` = `UnknownPosition` -/
@@ -75,12 +77,20 @@ def splitComma : Bytes → Bytes → List Bytes
 
 def lower (b : UInt8) : UInt8 := if 65 ≤ b && b ≤ 90 then b + 32 else b
 
+/-- every item must parse (one invalid byte-range-spec makes the whole header invalid) -/
+def parseAll : List Bytes → Option (List RSpec)
+  | [] => some []
+  | i :: rest =>
+    match parseSpec i, parseAll rest with
+    | some s, some r => some (s :: r)
+    | _, _ => none
+
 /-- `HttpHdrRange::parseInit`: `none` when the header is not "bytes=", any spec is invalid, or no spec is present -/
 def parseRange (v : Bytes) : Option (List RSpec) :=
   if (v.take 6).map lower != [98, 121, 116, 101, 115, 61] then none
   else
     let items := ((splitComma (v.drop 6) []).map trimWsp).filter (fun i => !i.isEmpty)
-    match items.mapM parseSpec with
+    match parseAll items with
     | none => none
     | some [] => none
     | some specs => some specs
